@@ -83,6 +83,20 @@ def r01_3(ctx, repo):
     d = _defs(fn, name) if isinstance(src, ast.Name) else []
     init = d[0].value if d else src
     txt = U(init)
+    if isinstance(init, ast.List) and not init.elts and isinstance(
+            src, ast.Name):
+        # the list is filled in a loop: judge what is appended
+        parts = []
+        for c in ast.walk(fn):
+            if isinstance(c, ast.Call) and isinstance(
+                    c.func, ast.Attribute) and c.func.attr == 'append' \
+                    and U(c.func.value) == name and c.args:
+                e = c.args[0]
+                if isinstance(e, ast.Name) and _defs(fn, e.id):
+                    e = _defs(fn, e.id)[-1].value
+                parts.append(U(e))
+        if parts:
+            txt = ' ; '.join(parts)
     kind = None
     if 'searchsorted' in txt or 'np.where' in txt or 'argwhere' in txt \
             or 'nonzero' in txt:
